@@ -256,6 +256,21 @@ func runInterleaved(c *gen.Ctx, workload string, features map[string]string, his
 		}
 		out.Results = append(out.Results, res)
 	}
+	if in.Sibling {
+		// probes of balance scoping: one funded source and one source that is only funded in the
+		// sibling ledger, without overdraft → insufficient funds
+		probes := []Step{
+			{Op: "tx", Postings: []jPosting{{Source: "world", Destination: "bank", Amount: "100", Asset: "USD/2"}, {Source: "world", Destination: "users:bob", Amount: "100", Asset: "COIN"}}},
+			{Op: "tx", Postings: []jPosting{{Source: "bank", Destination: "users:alice:savings", Amount: "1", Asset: "USD/2"}, {Source: "users:alice", Destination: "orders:1:pending", Amount: "5", Asset: "EUR"}}},
+			{Op: "tx", Postings: []jPosting{{Source: "users:bob", Destination: "bank", Amount: "2", Asset: "COIN"}, {Source: "orders:1:pending", Destination: "bank", Amount: "3", Asset: "USD/2"}}},
+		}
+		hist = append(probes, hist...)
+		shifted := map[int]bool{}
+		for k := range checkpoints {
+			shifted[k+len(probes)] = true
+		}
+		checkpoints = shifted
+	}
 	for i, s := range hist {
 		exec(s)
 		last := i == len(hist)-1
